@@ -24,10 +24,42 @@ def _swapcase_labels(labels, rng, mode):
     return out
 
 
+def reorder_answers(data, mode, rng):
+    """What resolvers do with an RRset (BIND rrset-order cyclic/random, unbound rrset-roundrobin): the answer records come
+    back rotated or shuffled, each one unchanged.  Only done when every record's owner is a 2-byte pointer (position
+    independent); otherwise the datagram is passed through."""
+    try:
+        m = proto.parse_msg(data)
+    except proto.ParseError:
+        return data
+    if not m.qr or len(m.an) < 2 or len(m.qd) != 1:
+        return data
+    try:
+        _l, qend = proto.read_name(data, 12)
+    except proto.ParseError:
+        return data
+    start = qend + 4
+    blocks = []
+    pos = start
+    for (_labels, _t, _c, _ttl, off, rdl) in m.an:
+        if data[pos] & 0xC0 != 0xC0 or off - pos != 12:
+            return data
+        blocks.append(data[pos:off + rdl])
+        pos = off + rdl
+    if mode == "rotate":
+        k = rng.randrange(1, len(blocks))
+        blocks = blocks[k:] + blocks[:k]
+    elif mode == "reverse":
+        blocks.reverse()
+    else:
+        rng.shuffle(blocks)
+    return data[:start] + b"".join(blocks) + data[pos:]
+
+
 def clean_profile():
     return {"q_drop": 0.0, "a_drop": 0.0, "q_dup": 0.0, "a_dup": 0.0, "q_delay": 0, "a_delay": 0,
             "until": 0, "bursts": [], "id_rewrite": False, "case": "keep", "impatient": 0, "id0": 0.0,
-            "lb_sources": 1, "base_latency": 20000, "fault_from": 0, "qx": None}
+            "lb_sources": 1, "base_latency": 20000, "fault_from": 0, "qx": None, "rr_order": "keep"}
 
 
 class FaultRelay(Actor):
@@ -201,6 +233,11 @@ class FaultRelay(Actor):
                         out = out[:12] + orig[12:ooff] + out[qoff:]
                 except proto.ParseError:
                     pass
+        if self.p.get("rr_order", "keep") != "keep" and out[:3] != proto.RAW_MAGIC:
+            o2 = reorder_answers(out, self.p["rr_order"], self.rng)
+            if o2 is not out:
+                self.stats["rr_reordered"] = self.stats.get("rr_reordered", 0) + 1
+                out = o2
         for d in self._plan("a"):
             self.kernel.emit("relay_down", "relay", dst=client, data=out, delay=d)
             self.kernel.transmit((self.ip, 53), client, out, d)
@@ -380,6 +417,13 @@ class XformRelay(Actor):
                 self._servfail(client, q)
                 return
             rrs.append((rt, nrd))
+        if getattr(self, "rr_order", "keep") != "keep" and len(rrs) > 1:
+            if self.rr_order == "reverse":
+                rrs.reverse()
+            else:
+                k = self.rng.randrange(1, len(rrs))
+                rrs = rrs[k:] + rrs[:k]
+            self.stats["rr_reordered"] = self.stats.get("rr_reordered", 0) + 1
         out = proto.build_answer_raw(q.id, labels, t, rrs, rcode=a.rcode, aa=False, qclass=c)
         limit = self.size_limit
         if not (self.edns0 is True and client_edns):
